@@ -308,12 +308,23 @@ func recipeJSON(r *Recipe, sb *strings.Builder) {
 
 type buildStats struct {
 	errors int
+	panics int
 }
 
 // buildObject builds one object from its recipe. It never fails: a recipe the
 // library rejects (e.g. RequireValid) yields a fixed stand-in point, the same
 // in every pool built from the recipe.
-func buildObject(r *Recipe, st *buildStats) geojson.Object {
+func buildObject(r *Recipe, st *buildStats) (obj geojson.Object) {
+	// A constructor that panics on this input is C05's business (input-only,
+	// same on every schedule): the object is replaced by the stand-in in every
+	// pool built from the recipe, and counted.
+	defer func() {
+		if p := recover(); p != nil {
+			st.errors++
+			st.panics++
+			obj = geojson.NewPoint(geometry.Point{X: 1, Y: 1})
+		}
+	}()
 	if r.Via == "ctor" {
 		if o := buildCtor(r, st); o != nil {
 			return o
@@ -428,7 +439,12 @@ func buildPool(s *Spec, st *buildStats) []geojson.Object {
 
 // buildShared wraps already built pool objects (no copy): the same child is
 // then reachable through two parents and as a top-level object.
-func buildShared(rc *Recipe, earlier []geojson.Object) geojson.Object {
+func buildShared(rc *Recipe, earlier []geojson.Object) (obj geojson.Object) {
+	defer func() {
+		if p := recover(); p != nil {
+			obj = geojson.NewPoint(geometry.Point{X: 2, Y: 2})
+		}
+	}()
 	var kids []geojson.Object
 	for _, k := range rc.Refs {
 		if k >= 0 && k < len(earlier) && earlier[k] != nil {
